@@ -110,7 +110,52 @@ def check_parse(L):
             rec.violation('C08/native/parser-agrees-with-reference', text,
                           f'got {norm(got)!r}, standard reader gives '
                           f'{want!r}')
+    check_file_reading(rec)
     rec.finish()
+
+
+def check_file_reading(rec):
+    """The reader of the tool, not only of a str: the real executable reads a
+    real file (--parser-test prints what it read) and the tokens are compared
+    with the reference reader on the characters the file really holds - a CR
+    or CR LF inside a string literal or quoted symbol is part of the token."""
+    import subprocess
+    import tempfile
+    repo = os.environ.get('PYVC_REPO', '/repo')
+    files = [b'(assert (= s "a\r\nb"))\n',
+             b'(declare-const |q\rr| Int)\r\n(assert (> |q\rr| 0))\r\n',
+             b'(assert (= s "x\ry")) ; c\r\n(check-sat)\r',
+             b'(assert (= s "plain"))\n']
+    d = tempfile.mkdtemp(prefix='c08file-')
+    try:
+        for k, data in enumerate(files):
+            f = os.path.join(d, f'in{k}.smt2')
+            with open(f, 'wb') as h:
+                h.write(data)
+            rec.case(('file', k), {'file': repr(data)})
+            r = subprocess.run([sys.executable, os.path.join(repo, 'bin',
+                                                             'ddsmt'),
+                                '--parser-test', f, os.path.join(d, 'out'),
+                                'cmd'], capture_output=True, timeout=120,
+                               env=dict(os.environ, PYTHONPATH=repo))
+            if r.returncode != 0:
+                rec.violation('C08/native/file-is-read-as-it-is',
+                              {'file': repr(data)},
+                              f'--parser-test exit {r.returncode}: '
+                              f'{r.stderr[-200:]!r}')
+                continue
+            want = [ref.norm_comment(t) for t in ref.tokens(
+                data.decode())]
+            got = [ref.norm_comment(t) for t in ref.tokens(
+                r.stdout.decode().replace('None\n', ''))]
+            if got != want:
+                rec.violation('C08/native/file-is-read-as-it-is',
+                              {'file': repr(data)},
+                              f'tokens read {got!r}, the file holds '
+                              f'{want!r}')
+    finally:
+        import shutil
+        shutil.rmtree(d, ignore_errors=True)
 
 
 # ---------------------------------------------------------------------------
